@@ -96,6 +96,11 @@ def main():
       y = call(q, x.reshape(shape)).reshape(-1)
       yy = call(q, y.reshape(shape)).reshape(-1)
       mn, mx = scalar(q.min()), scalar(q.max())
+      if ci % 5 == shard % 5:
+        # the same values handed over as float64 / as a plain nested list: the quantizer casts to floatx first
+        alt = np.asarray(q(tf.constant(x.reshape(shape).astype(np.float64))), dtype=np.float64).reshape(-1)
+        if not np.array_equal(alt.astype(np.float32), y) or not np.all(alt == alt.astype(np.float32)):
+          errors.append({"k": "float64_input_differs", "c": ci + 1})
     except Exception as e:  # a configuration of the lattice must not raise
       errors.append({"k": "exc", "c": ci + 1, "exc": repr(e)[:300]})
       Q.set_internal_sigmoid("hard")
